@@ -354,7 +354,8 @@ def part_c(ctx, exe, progs, depth, budget):
     def deterministic(ast):
         f = gen_ink.features(ast)
         return not any(k in f for k in ("seq.shuffle", "seqblock.shuffle", "expr.random", "expr.seed_random"))
-    vprogs = [(i, gen_ink.lookahead_variant(ast, ctx.rng, "noop")) for i, ast in progs if i in ok and deterministic(ast)]
+    vprogs = [(i, gen_ink.lookahead_variant(ast, ctx.rng, "cond" if n % 2 else "noop"))
+              for n, (i, ast) in enumerate(progs) if i in ok and deterministic(ast)]
     vres = vlib.run_inkdrive(play_cases(vprogs, depth, budget), exe=exe)
     b = {i: r for (i, _), r in zip(progs, base)}
     for (i, vast), r1 in zip(vprogs, vres):
@@ -407,17 +408,33 @@ def run(ctx):
     okb, logb = ctx.build(["theories/Engine/Run.vo", "theories/Spec/RefSem.vo"])
     if not okb:
         raise RuntimeError("model does not build: " + logb[-1500:])
-    na = 160 if quick else 2500
+    na = int(os.environ.get("C01_NA", 150 if quick else 1200))     # (env overrides: experiments only)
+    tm = {"proofs": round(time.time() - t0, 1)}
+    t1 = time.time()
     res_a, bad_a = part_a(ctx, exe_drive, na, stats)
+    tm["a_engine"] = round(time.time() - t1, 1)
+    t1 = time.time()
 
     # ---- (b) reference semantics
-    nb = 150 if quick else 2500
+    nb = int(os.environ.get("C01_NB", 120 if quick else 1500))
     depth_b, budget_b = (3, 30) if quick else (4, 80)
     progs_b = corpus_asts()
     for i in range(nb):
         src, ast = gen_ink.gen_program(ctx.rng, fragment="refsem", **REF_WEIGHTS)
         progs_b.append(("b%d" % i, ast))
-    calib_bad, ncal = calibrate()
+    from concurrent.futures import ThreadPoolExecutor
+    with ThreadPoolExecutor(max_workers=2) as ex:
+        fcal, fpro = ex.submit(calibrate), ex.submit(collect_probes, exe_play)
+        (calib_bad, ncal), probes_pending = fcal.result(), fpro.result()
+    probes_found = [k for k, _, _ in probes_pending]
+    # the stream avoids the constructs of the probes that still disagree; once every probe agrees
+    # (the compiler defects are repaired) part of the stream is generated without the workarounds
+    wide = 0
+    if not probes_pending:
+        for i in range(nb // 3):
+            src, ast = gen_ink.gen_program(ctx.rng, fragment="refsem", workarounds=0.0)
+            progs_b.append(("w%d" % i, ast))
+            wide += 1
     res_b = refsem_compare(progs_b, exe_play, depth_b, budget_b)
     by_b = {}
     for st, _ in res_b.values():
@@ -433,16 +450,17 @@ def run(ctx):
         small = shrink_refsem(ast, exe_play, depth_b, budget_b, cls) if len(seen_cls) <= 3 else ast
         d = refsem_compare([(0, small)], exe_play, depth_b, budget_b, name="c01shr")[0][1]
         ref_fail.append(dict(kind="refsem", cls=cls, ink=gen_ink.print_program(small), ast=small, difference=d))
-    probes_pending = collect_probes(exe_play)
-    probes_found = [k for k, _, _ in probes_pending]
 
+    tm["b_refsem"] = round(time.time() - t1, 1)
+    t1 = time.time()
     # ---- (c) exactly once, on the implementation
-    nc = 120 if quick else 1500
+    nc = int(os.environ.get("C01_NC", 120 if quick else 1500))
     progs_c = [(i, a) for i, a in progs_b[:nc // 2]]
     for i in range(nc - len(progs_c)):
         progs_c.append(("c%d" % i, gen_ink.gen_program(ctx.rng)[1]))
     fails_c, evals_c = part_c(ctx, exe_play, progs_c, 3 if quick else 4, 30 if quick else 60)
 
+    tm["c_once"] = round(time.time() - t1, 1)
     # ---- coverage
     npaths_b = sum(d.get("paths", 0) for st, d in res_b.values() if st == "agree")
     compiled = sum(1 for r in res_a if r["status"] != "compile-error")
@@ -462,12 +480,12 @@ def run(ctx):
         traces_validated_against_impl=stats["engine_paths"] + npaths_b,
         engine_correspondence=stats["engine_status"], engine_paths=stats["engine_paths"],
         compile_success_rate=round(compiled / max(1, len(res_a)), 4),
-        refsem_status=by_b, refsem_paths_agreeing=npaths_b, refsem_classes=sorted(seen_cls),
+        refsem_status=by_b, refsem_paths_agreeing=npaths_b, refsem_programs_without_workarounds=wide, refsem_classes=sorted(seen_cls),
         exactly_once_paths=evals_c, exactly_once_failures=len(fails_c),
         probes=len(PROBES), probes_disagreeing=probes_found,
         refsem_calibration=dict(corpus_stories=ncal, failing=[b["story"] for b in calib_bad]),
         feature_histogram=feats, programs=dict(a=len(res_a), b=len(progs_b), c=len(progs_c)),
-        wall_parts_s=round(time.time() - t0, 1)))
+        wall_parts_s=tm))
 
     # ---- verdict
     for f in fails_c[:3]:
